@@ -2,12 +2,14 @@
    Statements only; proofs in proofs/Gateway_proofs.v (gateway / facade), with the time bounds taken
    from the C05 and C06 models.  The gateway-level model is tied to the real Gateway and EZSP classes
    by correspondence; the full stack (real ASH, virtual time) is explored by the C10 harness. *)
-From Coq Require Import NArith List Bool.
+From Coq Require Import ZArith NArith List Bool.
 Import ListNotations.
 Require Import BV.gen.GenAsh BV.gen.GenProto BV.model.Gateway BV.model.EzspProto BV.proofs.Gateway_proofs.
 Open Scope N_scope.
 
-(* vocabulary: is_failure u := u is UReset code with code <> RESET_SOFTWARE, ULost true, or UEof *)
+(* vocabulary: is_failure u := u is UReset code with code <> RESET_SOFTWARE, ULost true, or UEof
+               gw_owns_transport st := e_has_gw st = false -> t_open st = false   (the facade gives up
+               its gateway only by closing it; holds in every reachable state, c10_gw_owns_transport) *)
 
 (* once an application callback is registered, every failure kind -- ERROR frame or retry exhaustion
    or unsolicited RSTACK (all reach the gateway as reset_received(code <> software)), connection
@@ -19,10 +21,24 @@ Proof. exact failure_reported. Qed.
 
 (* and the EZSP layer is stopped: new commands raise immediately, the gateway is released and the
    transport closed (so nothing more is written) *)
-Theorem c10_stopped : forall st l u, e_app_cb st = true -> In u l -> is_failure u ->
+(* Correction: as first written this was claimed from ANY state.  That is false of the
+   (unreachable) state that has already dropped its gateway while the transport is still open:
+     st = g_init with e_has_gw := false, e_app_cb := true (t_open = true), l = [UReset 2]:
+     EZSP.close() finds _gw is None and closes nothing, so t_open stays true (checked below).
+   The theorem now assumes gw_owns_transport st, which every reachable state satisfies
+   (c10_gw_owns_transport); e_running = false, e_has_gw = false and the refusal of commands do not
+   depend on it.  Nothing later in the same batch can undo the stop: batches hold upward calls only. *)
+Theorem c10_stopped : forall st l u, e_app_cb st = true -> gw_owns_transport st -> In u l -> is_failure u ->
   let st' := fst (gstep st (GBatch l)) in
   e_running st' = false /\ e_has_gw st' = false /\ t_open st' = false /\ snd (gstep st' GCommand) = [GCmdRaise].
 Proof. exact failure_stops. Qed.
+
+Theorem c10_gw_owns_transport : forall es, gw_owns_transport (gfinal es).
+Proof. exact gw_owns_transport_reachable. Qed.
+
+Example c10_stopped_counterexample :
+  t_open (fst (gstep (upd_e g_init true false false true) (GBatch [UReset 2]))) = true.
+Proof. reflexivity. Qed.
 
 Theorem c10_stays_stopped : forall st es, e_running st = false ->
   ~ In GStartEzsp es -> e_running (fst (grun st es)) = false.
